@@ -475,7 +475,7 @@ func init() {
 	)
 	defs = append(defs,
 		def{"C16", base + "oracle: every block is executed again on the producer and on each replica (and again for the commit): write set, state-change digest, state root, cross-state root, cross hashes and events must be identical; replicas' stored state roots must equal the producer's for every height. (The wall-clock clause is exercised by the light-client checks; governance contracts read no clock.)", map[string]int{"reexec": 6}, []string{"re_execution_compared", "epoch_change", "import_released"}},
-		def{"C17", base + "oracle: every key written by every transaction lies under the contract-storage prefix of a registered native contract (never a ledger bookkeeping key), and no written key of the governance / registry / relayer / cross-chain-manager / signature contracts can be read as two different record kinds of its contract (key-layout attribution of the keys actually produced); auxiliary static invariant, not simulation: a build-time census (go/ast) of every utils.ConcatKey site of all native contracts of the tree under test, in which two record kinds of one contract must not share a key prefix nor have one prefix extend the other with matching parameter lengths", map[string]int{"fee": 3}, []string{"key_attributed", "census_kind_pair_compared", "fee_vote_closes_timed_out_round", "fee_record_key_checked"}},
+		def{"C17", base + "oracle: every key written by every transaction lies under the contract-storage prefix of a registered native contract (never a ledger bookkeeping key), and no written key of the governance / registry / relayer / cross-chain-manager / signature contracts can be read as two different record kinds of its contract (key-layout attribution of the keys actually produced); auxiliary static invariant, not simulation: a build-time census (go/ast) of every utils.ConcatKey site of all native contracts of the tree under test, in which two record kinds of one contract must not share a key prefix nor have one prefix extend the other with matching parameter lengths", map[string]int{"fee": 3, "relayer": 5, "relayerdup": 3, "statevals": 3}, []string{"approval_record_key_owner_checked", "key_attributed", "census_kind_pair_compared", "fee_vote_closes_timed_out_round", "fee_record_key_checked"}},
 	)
 	for _, d := range defs {
 		d := d
